@@ -12,7 +12,15 @@ from .common import coq_z, coq_list
 
 def s_id(i): return f"ev{i:06d}"
 def s_job(i): return f"job{i:06d}"
-def s_name(i): return f"name{i:04d}"
+# workflow names: byte order == index order (ORDER BY job_name); the first six differ pairwise only in letter case
+_NAMES = ["Billing", "Checkout", "Orders", "billing", "checkout", "orders"]
+
+
+def s_name(i): return _NAMES[i - 1] if 1 <= i <= len(_NAMES) else f"p{i:04d}"
+
+
+def un_name(s: str) -> int:
+    return _NAMES.index(s) + 1 if s in _NAMES else int(s[1:])
 def s_ty(i): return f"T{i}"
 def s_app(i): return f"app{i}"
 
@@ -26,7 +34,7 @@ def to_otel(ev):
     return OTelEvent(job_name=s_name(ev["name"]), job_id=s_job(ev["job"]), event_type=s_ty(ev["ty"]),
                      event_id=s_id(ev["id"]), start_timestamp=ev["st"], end_timestamp=ev["en"],
                      application_name=s_app(ev["app"]),
-                     parent_event_id=s_id(ev["par"]) if ev["par"] is not None else None)
+                     parent_event_id=("" if ev["par"] == 0 else s_id(ev["par"])) if ev["par"] is not None else None)
 
 
 def holder(db_uri: str, batch_size: int = 1000, time_buffer: int = 0):
@@ -61,9 +69,9 @@ def read_tables(path: str):
             hashes = []
     finally:
         con.close()
-    evs = [dict(id=un(r[0]), par=un(r[1]) if r[1] is not None else None, job=un(r[2]), name=un(r[3]), ty=un(r[4]),
+    evs = [dict(id=un(r[0]), par=(0 if r[1] == "" else un(r[1])) if r[1] is not None else None, job=un(r[2]), name=un_name(r[3]), ty=un(r[4]),
                 st=r[5], en=r[6], app=un(r[7])) for r in nodes]
-    return evs, [(un(p), un(c)) for p, c in assoc], hashes
+    return evs, [((0 if p == "" else un(p)), un(c)) for p, c in assoc], hashes
 
 
 def raw_insert(path: str, evs, assoc):
@@ -92,7 +100,7 @@ def coq_nodes(evs) -> str:
 
 
 def coq_pairs(ps) -> str:
-    return coq_list([f"({a}%positive, {b}%positive)" for a, b in ps])
+    return coq_list([f"({a or 999999}%positive, {b}%positive)" for a, b in ps])
 
 
 def coq_store(evs, assoc) -> str:
